@@ -426,6 +426,7 @@ def run(ctx):
     ctx.count_cases("oracle-parse-locs", n, outcomes=outcomes,
                     distinct_keys=[f"{g}|{s}" for g, _ in _grammars(pp) for s in inputs if "\t" in s or "\n" in s],
                     samples=[{"grammar": "seq", "s": inputs[5], "keep_tabs": False}])
+    run_spans(ctx, pp)
     ctx.assumptions.append("C14: parser-reported locations are checked by the oracle on the real code and, through "
                            "the parse model, by C01/C13 correspondence; the Lean theorems cover util.col/lineno/line "
                            "and expandtabs for all strings")
@@ -444,6 +445,9 @@ def replay(data):
     case = data.get("case", {})
     if "loc" in case:
         return oracle_linecol(pp, case["s"], case["loc"]) is not None
+    if case.get("span_case"):
+        g = {x[0]: x for x in _span_grammars(pp)}[case["grammar"]]
+        return bool(oracle_spans(pp, g[0], g[1], g[2], g[3], case["s"], case["ignore"], case["keep_tabs"]))
     if "grammar" in case:
         mk = dict(_grammars(pp))[case["grammar"]]
         return bool(oracle_parse_locs(pp, case["grammar"], mk, case["s"], case["keep_tabs"]))
@@ -451,3 +455,206 @@ def replay(data):
     ctx = common.Ctx("C14", "quick", data.get("seed", 0))
     run(ctx)
     return bool(ctx.broken or ctx.fail_inputs)
+
+
+# ---- spans re-derived from the tokens --------------------------------------------------------------------------------
+# "the slice from a match's start to its end is the text it matched": for grammars whose tokens are exactly the texts of
+# their Word/Literal leaves in order, the matched text is token_1 <ignorable> token_2 ... token_n, so the start is the
+# first character of token_1 and the end is the position right after token_n — whatever whitespace / comments /
+# suppressed delimiters follow.  Re-derived here by walking the parsed string; independent of every location pyparsing
+# reports.
+def _span_grammars(pp):
+    W = lambda: pp.Word("ab")
+    N = lambda: pp.Word("01")
+
+    def fwd_alt():
+        f = pp.Forward()
+        f <<= (N() | W())
+        return f
+
+    def fwd_seq():
+        f = pp.Forward()
+        f <<= W() + pp.Opt(N())
+        return f
+
+    def rec_list():
+        f = pp.Forward()
+        f <<= (W() + pp.Opt(f)) | N()
+        return f
+
+    # (name, factory, suppressed delimiter characters, action-loc-in-scope); LOOSE_END: grammars whose last element may be an
+    # Opt / ZeroOrMore that did not match (registered finding optional_tail_end_after_blanks)
+    return [
+        ("word", W, "", True),
+        ("seq", lambda: W() + N(), "", True),
+        ("seq3", lambda: W() + N() + W(), "", True),
+        ("rep", lambda: pp.OneOrMore(W()), "", True),
+        ("rep-alt", lambda: (W() | N())[1, ...], "", False),   # wrapper over an alternation: callPreparse copied as False (existing behaviour, not claimed)
+        ("zrep", lambda: W() + pp.ZeroOrMore(N()), "", True),
+        ("rep-group", lambda: pp.OneOrMore(pp.Group(W() + pp.Opt(N()))), "", True),
+        ("opt-tail", lambda: W() + pp.Opt(N()), "", True),
+        ("delim", lambda: pp.DelimitedList(W(), delim=","), ",", True),
+        ("fwd-alt", fwd_alt, "", True),
+        ("fwd-seq", fwd_seq, "", True),
+        ("fwd-rec", rec_list, "", True),
+        ("alt", lambda: N() | W() + N() | W(), "", False),
+        ("or", lambda: (W() ^ (W() + N())), "", False),
+        ("group-alt", lambda: pp.Group(N() | W()), "", False),
+    ]
+
+
+LOOSE_END = {"zrep", "rep-group", "opt-tail", "delim", "fwd-seq", "fwd-rec"}
+
+
+def _flat(toks):
+    out = []
+    for t in toks:
+        if isinstance(t, str):
+            out.append(t)
+        else:
+            out.extend(_flat(t))
+    return out
+
+
+def _walk(parsed, st, toks, skip, comment):
+    """positions (first, end) of the token texts laid out from st, skipping `skip` characters and comments between them"""
+    pos, first = st, None
+    for k, t in enumerate(toks):
+        if k:
+            while True:
+                while pos < len(parsed) and parsed[pos] in skip:
+                    pos += 1
+                if comment == "#" and parsed.startswith("#", pos):
+                    nl = parsed.find("\n", pos)
+                    pos = len(parsed) if nl < 0 else nl
+                    continue
+                if comment == "c" and parsed.startswith("/*", pos) and parsed.find("*/", pos + 2) >= 0:
+                    pos = parsed.find("*/", pos + 2) + 2
+                    continue
+                break
+        if not parsed.startswith(t, pos):
+            return None
+        if first is None:
+            first = pos
+        pos += len(t)
+    return first, pos
+
+
+def _end_ok(parsed, w, en, skip, comment, loose):
+    """the reported end `en` against the end `w[1]` of the last token"""
+    if en == w[1]:
+        return True
+    if not loose or en < w[1]:
+        return False
+    # registered finding: anywhere inside the run of blanks / ignorables that follows the last token
+    reach = _walk(parsed, w[1], ["", ""], skip, comment)
+    return reach is not None and en <= reach[1]
+
+
+def oracle_spans(pp, gname, mk, delims, act_scope, s, comment, keep_tabs):
+    probs = []
+    parsed = s if keep_tabs else s.expandtabs()
+    skip = " \t\r\n" + delims
+    loose = gname in LOOSE_END
+
+    def prep(e):
+        if comment == "#":
+            e.ignore(pp.python_style_comment)
+        elif comment == "c":
+            e.ignore(pp.c_style_comment)
+        if keep_tabs:
+            e.parse_with_tabs()
+        return e
+
+    # scan_string spans
+    try:
+        for toks, st, en in prep(mk()).scan_string(s):
+            w = _walk(parsed, st, _flat(toks.as_list()), skip, comment)
+            if w is None:
+                probs.append(f"scan_string start {st}: tokens {_flat(toks.as_list())!r} are not laid out from there")
+            elif w[0] != st or not _end_ok(parsed, w, en, skip, comment, loose):
+                probs.append(f"scan_string reports [{st}:{en}], the tokens {_flat(toks.as_list())!r} occupy [{w[0]}:{w[1]}]")
+    except pp.ParseBaseException:
+        pass
+    # Located / original_text_for through scan_string
+    try:
+        for toks, st, en in prep(pp.Located(mk())).scan_string(s):
+            inner = _flat(toks["value"].as_list()) if "value" in toks else []
+            if not inner:
+                continue
+            w = _walk(parsed, toks["locn_start"], inner, skip, comment)
+            if w is None or w[0] != toks["locn_start"] or not _end_ok(parsed, w, toks["locn_end"], skip, comment, loose):
+                probs.append(f"Located reports [{toks['locn_start']}:{toks['locn_end']}], its tokens {inner!r} occupy {w}")
+    except pp.ParseBaseException:
+        pass
+    try:
+        plain = [(st, _flat(t.as_list())) for t, st, en in prep(mk()).scan_string(s)]
+        texts = [t[0] for t, st, en in prep(pp.original_text_for(mk())).scan_string(s)]
+        for (st, toks), txt in zip(plain, texts):
+            w = _walk(parsed, st, toks, skip, comment)
+            if w is not None and not (txt.startswith(parsed[w[0]:w[1]]) and
+                                      _end_ok(parsed, w, w[0] + len(txt), skip, comment, loose) and txt == parsed[w[0]:w[0] + len(txt)]):
+                probs.append(f"original_text_for gives {txt!r}, the matched text is {parsed[w[0]:w[1]]!r}")
+    except pp.ParseBaseException:
+        pass
+    # the loc handed to a parse action attached to the expression itself = first character of its first token
+    if act_scope:
+        seen = []
+        e = mk()
+        e = e.copy() if not isinstance(e, pp.Forward) else e
+        e.add_parse_action(lambda st_, l, t: seen.append((l, _flat(t.as_list()))))
+        try:
+            prep(pp.Suppress(pp.Literal("=")) + e).parse_string("= " + s if s[:1] not in ("",) else "=" + s)
+        except pp.ParseBaseException:
+            seen = []
+        p2 = ("= " + s) if keep_tabs else ("= " + s).expandtabs()
+        for l, toks in seen[-1:]:
+            if toks and not p2.startswith(toks[0], l):
+                probs.append(f"parse action loc {l} is not the start of its first token {toks[0]!r} in {p2!r}")
+    return probs
+
+
+def _span_inputs(ctx):
+    rng = ctx.subrng("span-inputs")
+    pieces = ["ab", "a", "b", "01", "1", " ", " ", "  ", "\t", "\n", ",", "#x\n", "# 01", "/* c */", "/*ab*/", "x", ";"]
+    out = ["ab cd #x\n 12", "ab ab #x\n 01", "ab 01 /* c */ ;", "ab /* c */", "ab,ab , ab #", "  ab\t01  ", "ab #x", "\n\n  01"]
+    for _ in range(ctx.budget(120, 900)):
+        out.append("".join(rng.choice(pieces) for _ in range(rng.randint(1, 8))))
+    return out
+
+
+def run_spans(ctx, pp):
+    # registered finding: replay the witness; it must still fail in the recorded way to be reported as known
+    try:
+        got = pp.original_text_for(pp.Word("ab") + pp.Opt(pp.Word("01"))).parse_string("ab   x").as_list()
+    except pp.ParseBaseException as ex:
+        got = repr(ex)
+    if got == ["ab   "]:
+        ctx.fail_input("end of a match lies after the blanks that follow its last token",
+                       {"span_case": True, "grammar": "opt-tail", "s": "ab   x", "ignore": "", "keep_tabs": False, "witness": True},
+                       ["ab"], got, theorem="C14 locations (oracle: spans re-derived from the tokens)",
+                       signature="optional_tail_end_after_blanks")
+    inputs = _span_inputs(ctx)
+    n, outcomes, shown = 0, {}, 0
+    for gname, mk, delims, act_scope in _span_grammars(pp):
+        for s in inputs:
+            for comment in ("", "#", "c"):
+                if comment == "" and ("#" in s or "/*" in s) and False:
+                    continue
+                for keep in (False, True):
+                    n += 1
+                    try:
+                        probs = common.with_alarm(5, oracle_spans, pp, gname, mk, delims, act_scope, s, comment, keep)
+                    except common.CaseTimeout:
+                        probs = ["hang"]
+                    k = "ok" if not probs else "problem"
+                    outcomes[k] = outcomes.get(k, 0) + 1
+                    if probs and shown < 3:
+                        shown += 1
+                        ctx.fail_input("reported span is not the text the tokens occupy",
+                                       {"span_case": True, "grammar": gname, "s": s, "ignore": comment, "keep_tabs": keep},
+                                       "start = first character of the first token, end = right after the last token",
+                                       probs[:3], theorem="C14 locations (oracle: spans re-derived from the tokens)")
+    ctx.count_cases("oracle-spans", n, outcomes=outcomes,
+                    distinct_keys=[f"{g}|{s}" for g, *_ in _span_grammars(pp) for s in inputs],
+                    samples=[{"grammar": "rep", "s": inputs[0], "ignore": "#", "keep_tabs": False}])
